@@ -371,7 +371,8 @@ class G:
     def mk_filterstr(self, T, d):
         self.use("filter-str")
         (p,) = self.cbparams(1)
-        body = ("bin", "!=", ("sym", p), ("str", self.r.choice(["a", "b", " ", "o"])))
+        body = self.r.choice([("bin", "!=", ("sym", p), ("str", self.r.choice(["a", "b", " ", "o"])))] * 3 +
+                             [("sym", p), ("null",), ("int", 0), ("str", "")])
         return ("filter", ("func", [p], body), self.expr("str", d - 1))
 
     # --- bool
@@ -539,7 +540,10 @@ class G:
         self.use("filter-tuple")
         k, v = self.cbparams(2)
         names = [n for n, _ in T[1]] or ["a"]
-        body = self.r.choice([("bin", "!=", ("sym", k), ("str", "zz")), ("bool", True), ("bin", "in", ("sym", k), ("list", [("str", n) for n in names]))])
+        body = self.r.choice([("bin", "!=", ("sym", k), ("str", "zz")), ("bool", True), ("bin", "in", ("sym", k), ("list", [("str", n) for n in names])),
+                              # the reference: false or NULL drops the field, ANY other result keeps it
+                              ("sym", v), ("sym", k), ("null",), ("int", 0), ("str", ""), ("list", []), ("bool", False),
+                              ("bin", "==", ("sym", k), ("str", names[0]))])
         return ("filter", ("func", [k, v], body), self.expr(T, d - 1))
 
     def mk_maptuple(self, T, d):
@@ -609,6 +613,59 @@ class G:
             v = self.fresh()
             stmts.append(("let", v, ("map", ("func", [p], body), ("list", [arg]))))
             self.scope.append((v, ("list", ret)))
+
+    def stmt_tuple_ops(self, stmts):
+        """operations whose result type is computed from the operand: map over a tuple that renames fields or changes the
+        values, reduce over a tuple, copy that appends fields - appends one let statement"""
+        r = self.r
+        names = r.sample([n for n in FIELD_POOL if gen.BAREWORD_RE.match(n) and n not in ("true", "false")], r.randint(1, 3))
+        VT = r.choice(["int", "str"])
+        tt = ("tuple", tuple((n, VT) for n in names))
+        src = self.leaf(tt) if r.random() < 0.5 else self.literal(tt)
+        k, v, acc = self.fresh("p"), self.fresh("p"), self.fresh("p")
+        K, V, A = ("sym", k), ("sym", v), ("sym", acc)
+        kind = r.randrange(9)
+        self.use("tuple-op-%d" % kind)
+        if kind == 0:      # rename every field
+            e = ("map", ("func", [k, v], ("list", [("bin", "+", K, ("str", "x")), V])), src)
+            T = ("tuple", tuple((n + "x", VT) for n in names))
+        elif kind == 1:    # replace every value by a constant of another type
+            e = ("map", ("func", [k, v], ("list", [K, ("bool", True)])), src)
+            T = ("tuple", tuple((n, "bool") for n in names))
+        elif kind == 2:    # value becomes a list holding the value
+            e = ("map", ("func", [k, v], ("list", [K, ("list", [V])])), src)
+            T = ("tuple", tuple((n, ("list", VT)) for n in names))
+        elif kind == 3:    # names collected by reduce
+            e = ("reduce", ("func", [acc, k, v], ("bin", "+", A, ("list", [K]))), ("list", []), src)
+            T = ("list", "str")
+        elif kind == 4:    # fields counted by reduce
+            e = ("reduce", ("func", [acc, k, v], ("bin", "+", A, ("int", 1))), ("int", 0), src)
+            T = "int"
+        elif kind == 5:    # values folded by reduce
+            e = ("reduce", ("func", [acc, k, v], ("bin", "+", A, V)), self.literal(VT), src)
+            T = VT
+        elif kind == 6:    # copy appends a new field (and may override an old one)
+            new = r.choice(["zed", "extra", "q9"])
+            flds = [(new, self.literal("bool"))]
+            if r.random() < 0.5:
+                flds.insert(r.randint(0, 1), (names[0], self.literal(VT)))
+            if src[0] != "sym":
+                nm = self.fresh()
+                stmts.append(("let", nm, src))
+                self.scope.append((nm, tt))
+                src = ("sym", nm)
+            e = ("copy", src, flds)
+            T = ("tuple", tuple((n, VT) for n in names) + ((new, "bool"),))
+        elif kind == 7:    # reduce over a tuple building a tuple through copy is not first-order friendly: filter by value instead
+            e = ("filter", ("func", [k, v], ("bin", "!=", V, self.literal(VT))), src)
+            T = None        # which fields survive depends on the values
+        else:              # map over a list of tuples selecting two fields
+            e = ("map", ("func", [k], ("list", [("sel", K, ("f", names[0])), ("sel", K, ("f", names[-1]))])), ("list", [src, src]))
+            T = ("list", ("list", VT))
+        nm = self.fresh()
+        stmts.append(("let", nm, e))
+        if T is not None:
+            self.scope.append((nm, T))
 
     def stmt_module(self, d):
         r = self.r
@@ -693,7 +750,10 @@ class G:
             elif x < 0.39:
                 self.stmt_record_func(stmts)
                 continue
-            elif x < 0.43:
+            elif x < 0.42:
+                self.stmt_tuple_ops(stmts)
+                continue
+            elif x < 0.45:
                 # tuple holding a function: exercises calls through tuple fields
                 self.use("tuple-with-func")
                 p = self.fresh("p")
